@@ -810,26 +810,32 @@ func (c *c30case) pollAhead() bool {
 	return true
 }
 
+// pollSkips records the snapshot elements the poller has passed over without a store call.  The
+// poller evaluates them in one go (there is no gate in between), so they are recorded at once.
+func (c *c30case) pollSkips() {
+	p := c.poll
+	for len(p.rem) > 0 && (p.pos == 2 || (p.pos == 1 && p.rem[0] != p.next)) {
+		p.rem = p.rem[1:]
+		c.emit("OpPollNext", "OSkip")
+	}
+}
+
 func (c *c30case) pollStep() {
 	p := c.poll
 	switch p.pos {
 	case 0, 1, 2:
-		if p.pos == 0 && !c.pollAhead() {
-			return
+		if p.pos == 0 {
+			if !c.pollAhead() {
+				return
+			}
+			c.pollSkips()
+			if p.pos == 1 {
+				return // the next step is the MarkPending the poller is parked at
+			}
 		}
 		if p.pos == 2 {
-			if len(p.rem) > 0 {
-				p.rem = p.rem[1:]
-				c.emit("OpPollNext", "OSkip")
-			} else {
-				c.poll = nil
-				c.emit("OpPollNext", "ODone")
-			}
-			return
-		}
-		if len(p.rem) > 0 && p.rem[0] != p.next {
-			p.rem = p.rem[1:]
-			c.emit("OpPollNext", "OSkip")
+			c.poll = nil
+			c.emit("OpPollNext", "ODone")
 			return
 		}
 		if len(p.rem) > 0 {
@@ -845,6 +851,7 @@ func (c *c30case) pollStep() {
 			p.g = g
 			if c.pollAhead() {
 				c.emit("OpPollNext", "ONotFound")
+				c.pollSkips()
 			}
 			return
 		}
@@ -870,6 +877,7 @@ func (c *c30case) pollStep() {
 		}
 		c.q[1] = append(c.q[1], p.cur)
 		c.emit("OpPollEnq", "OSent")
+		c.pollSkips()
 		c.settle()
 	case 4:
 		ptr := p.g.ptr
@@ -888,6 +896,7 @@ func (c *c30case) pollStep() {
 		} else {
 			c.emit("OpPollMark", "ODone")
 		}
+		c.pollSkips()
 	}
 }
 
